@@ -18,15 +18,22 @@ const conservativeBytesPerEntry = 500
 
 // Table writer is a factory for creating tables that keeps track of the table ID.
 type TableWriter struct {
-	fs storage.FileSystem
-	id *atomic.Int64
+	fs       storage.FileSystem
+	id       *atomic.Int64
+	disowned *atomic.Bool // set by Disown: written tables no longer delete their files when collected
 }
 
 // Create a TableWriter with a given file system and starting table ID.
 func NewTableWriter(fs storage.FileSystem, id int64) *TableWriter {
 	atomicNum := &atomic.Int64{}
 	atomicNum.Store(id)
-	return &TableWriter{fs: fs, id: atomicNum}
+	return &TableWriter{fs: fs, id: atomicNum, disowned: &atomic.Bool{}}
+}
+
+// Disown stops the tables written by this writer from deleting their files
+// when they are garbage collected.
+func (c *TableWriter) Disown() {
+	c.disowned.Store(true)
 }
 
 // AdvancePast makes sure that the next table written gets a file number
@@ -44,7 +51,7 @@ func (c *TableWriter) Write(entries iter.Seq[kv.Entry]) (*Table, error) {
 	reservedNum := c.id.Add(1) - 1
 	f := c.fs.New(fmt.Sprintf("%06d.sst", reservedNum))
 
-	table := NewTable(f)
+	table := newTable(f, c.disowned)
 	for e := range entries {
 		writeEntry(table, e)
 	}
